@@ -302,10 +302,14 @@ func (x *bufExec) rangeOp(f []string, useBuffer bool) string {
 		if index < len(cbs) {
 			cb = cbs[index]
 		}
-		switch cb {
-		case "p":
+		switch {
+		case cb == "p":
 			panic("scripted panic")
-		case "c":
+		case cb == "c":
+			return true
+		case strings.HasPrefix(cb, "P"):
+			// the callback itself Puts a value (it arrives while the callback of this value is running)
+			_ = x.b.Put(context.Background(), atoi(cb[1:]))
 			return true
 		}
 		stopped = true
@@ -364,7 +368,12 @@ func (x *bufExec) step(line string) string {
 		for _, s := range f[1:] {
 			vals = append(vals, atoi(s))
 		}
-		return canonErr(x.b.Put(context.Background(), vals...))
+		err := x.b.Put(context.Background(), vals...)
+		// a producer may reuse its batch slice after Put returns: the buffer must not alias it
+		for i := range vals {
+			vals[i] = -7
+		}
+		return canonErr(err)
 	case "get":
 		_, c := x.consumer(f)
 		if c == nil {
@@ -595,9 +604,19 @@ func genBuffer(r *rng.R, tier string, i int) []string {
 			}
 			k := r.Intn(4)
 			for j := 0; j < k; j++ {
-				op += " c"
+				if r.Chance(20) {
+					op += fmt.Sprintf(" P%d", 5000+next)
+					next++
+				} else {
+					op += " c"
+				}
 			}
-			op += []string{" s", " p", " c"}[r.Intn(3)]
+			if r.Chance(25) {
+				op += fmt.Sprintf(" P%d", 5000+next)
+				next++
+			} else {
+				op += []string{" s", " p", " c"}[r.Intn(3)]
+			}
 			s = append(s, op)
 		case 8:
 			s = append(s, []string{"slice", "size"}[r.Intn(2)])
